@@ -64,7 +64,12 @@ func zzV0Cid(b byte) cid.Cid {
 	return cid.NewCidV0(m)
 }
 
-func HarnessC11Codec() {
+func HarnessC11Codec() { zzCodec() }
+
+// HarnessC11CodecNames: the same with fewer links but longer names (prefix ordering "a" < "ab").
+func HarnessC11CodecNames() { zzCodec() }
+
+func zzCodec() {
 	zzRealCodec = true
 	defer func() { zzRealCodec = false }()
 	nl := verifrt.NondetRange("nl", 0, verifrt.Param("NL", 2))
